@@ -237,6 +237,24 @@ def reset_state_obligations(check, name, pi, p, t, spec, replay=None, fresh=None
                      detail=f"{a} = {v}")
 
 
+def stale_holders(t, Hcls):
+    """paths (attribute chains from the transformer) to ILOpsHolder objects other than t.il_ops_holder"""
+    cur = t.fields.get("il_ops_holder")
+    out, seen, todo = [], set(), [(t, "transformer")]
+    while todo:
+        o, path = todo.pop()
+        if not isinstance(o, Obj) or id(o) in seen:
+            continue
+        seen.add(id(o))
+        if o.cls is Hcls and o is not cur:
+            out.append(path)
+            continue
+        for f, v in o.fields.items():
+            if isinstance(v, Obj):
+                todo.append((v, f"{path}.{f}"))
+    return out
+
+
 def gen_reset(loader, check, replay_on=True):
     spec = load_state_classes()
     T = loader.load(tkit.M_T).globals["RZILTransformer"]
@@ -262,10 +280,16 @@ def gen_reset(loader, check, replay_on=True):
             check.ob("reset#total", pi, p.ctx.pc, p.outcome == "return", replay=rp)
             if p.outcome == "return":
                 reset_state_obligations(check, "reset", pi, p, p.state, spec, rp)
-                # frame: resources are not touched
+                # frame: resources are not touched (installing another, reset, operand holder is a way of clearing the per-behaviour state:
+                # the clauses above then speak about the new holder, the clause below about the old one)
                 t = p.state
-                bad = [(o, f) for (o, f, _, _) in p.ctx.pre_writes() if o is t]
+                Hcls = loader.load(tkit.M_H).globals["ILOpsHolder"]
+                h_now = t.fields["il_ops_holder"]
+                bad = [(o, f) for (o, f, _, _) in p.ctx.pre_writes() if o is t and not (f == "il_ops_holder" and isinstance(h_now, Obj) and h_now.cls is Hcls)]
                 check.ob("reset#modifies-only-per-behaviour-state", pi, p.ctx.pc, not bad, detail=str(bad))
+                stale = stale_holders(t, Hcls)
+                check.ob("reset#no-stale-holder: every operand holder still reachable from the transformer is the reset one", pi, p.ctx.pc, not stale,
+                         detail="; ".join(stale[:3]), replay=("c14.stale_holder", lambda mdl: {}) if replay_on else None)
 
     # a freshly constructed transformer satisfies the reset state (base case of the invariant)
     check.instances_declared += 1
@@ -303,12 +327,18 @@ class _ParseCall(NativeAbs):
         return tr
 
 
-def dirty_transform_stub(log):
+def dirty_transform_stub(log, entry_facts=None):
     """Assumed contract of Transformer.transform: arbitrary callbacks of this transformer run (the
     per-behaviour state becomes arbitrary) and it returns text or raises any Exception."""
     def stub(it, callee, args, kwargs):
         t = args[0]
         log.append(t)
+        if entry_facts is not None:
+            # is the transformer in the reset state when the translation starts?  (recorded with the path condition of this moment)
+            import types
+            sub = Check("C14", "quick")
+            reset_state_obligations(sub, "at-transform", f"call {len(log)}", types.SimpleNamespace(ctx=it.ctx), t, load_state_classes())
+            entry_facts.extend(sub.obs)
         dirty(it, t, tag=f"w{len(log)}")
         if it.ctx.branch(z3.Bool(it.ctx.fresh_name("transform_raises"))):
             raise PyRaise(ExcVal(Exception, ["visit error"]))
@@ -316,7 +346,7 @@ def dirty_transform_stub(log):
     return stub
 
 
-def mk_compiler(it, log, noped=False):
+def mk_compiler(it, log, noped=False, entry_facts=None):
     loader = it.loader
     Comp = loader.load("rzilcompiler.Compiler").globals["Compiler"]
     c = Obj(Comp)
@@ -328,7 +358,7 @@ def mk_compiler(it, log, noped=False):
     c.fields["parsed_insns"] = {}
     c.fields["sub_routines"] = {}
     c.fields["parser"] = ParserAbs()
-    it.ctx.contracts["Transformer.transform"] = dirty_transform_stub(log)
+    it.ctx.contracts["Transformer.transform"] = dirty_transform_stub(log, entry_facts)
     # get_meta through its contract (discharged in C13): a pure function of the flags, no state change
     it.ctx.contracts[f"{M_X}.HexagonTransformerExtension.get_meta"] = lambda it_, f, a, k: ["<render of current flags>"]
     return c, t
@@ -341,30 +371,53 @@ def gen_entry_points(loader, check, replay_on=True):
         check.under_contract(loader, Comp.methods[m])
     PI = loader.load("rzilcompiler.Parser").globals["ParsedInsn"]
 
+    # History independence is a rely/guarantee argument with two admissible disciplines:
+    #   (exit)  every entry point leaves the transformer in the reset state on every exit, normal or exceptional, or
+    #   (entry) this entry point puts the transformer in the reset state itself before every translation it starts, whatever it finds.
+    # An entry point is history independent if it satisfies (entry), or if ALL entry points satisfy (exit) (and construction yields the
+    # reset state: gen_reset).  Both facts are computed per entry point from sub-obligations discharged here; the obligation that goes
+    # into the report is the disjunction.
+    exit_facts, entry_facts_of = {}, {}
+
     def run_ep(name, inst, call, pre_dirty, rp=None):
         check.instances_declared += 1
         log = []
-
-        def setup(it):
-            del log[:]
-            c, t = mk_compiler(it, log)
-            if pre_dirty:
-                dirty(it, t, "pre")
-            it.ctx.mark_pre(c)
-            return {"c": c, "t": t}
-        ex = explore(loader, setup, lambda it, st: call(it, st))
-        check.absorb(ex, f"{name} {inst}")
-        if ex.paths:
-            check.instances_generated += 1
         outcomes = set()
-        for i, p in enumerate(ex.paths):
-            pi = f"{inst} exit={p.outcome} path={i}"
-            outcomes.add(p.outcome)
-            reset_state_obligations(check, name, pi, p, p.state["t"], spec, rp)
-            yield p, pi
+        for mode in ("exit", "entry"):
+            facts = []
+
+            def setup(it, mode=mode, facts=facts):
+                del log[:]
+                del facts[:]
+                c, t = mk_compiler(it, log, entry_facts=(facts if mode == "entry" else None))
+                if pre_dirty or mode == "entry":
+                    dirty(it, t, "pre")
+                it.ctx.mark_pre(c)
+                return {"c": c, "t": t, "facts": facts}
+            ex = explore(loader, setup, lambda it, st: call(it, st))
+            check.absorb(ex, f"{name} {inst} ({mode})")
+            if ex.paths and mode == "exit":
+                check.instances_generated += 1
+            sub = Check("C14", "quick")
+            for i, p in enumerate(ex.paths):
+                pi = f"{inst} exit={p.outcome} path={i}"
+                if mode == "exit":
+                    outcomes.add(p.outcome)
+                    reset_state_obligations(sub, name, pi, p, p.state["t"], spec, rp)
+                else:
+                    # the facts list is filled while the path runs; explore() re-runs setup per path, so the list holds this path's facts
+                    sub.obs.extend(p.state["facts"])
+                    if not log and p.outcome == "return":
+                        pass
+            sub.discharge()
+            failed = [f"{o.name} [{o.instance}]" for o in sub.obs if o.status != "discharged"]
+            (exit_facts if mode == "exit" else entry_facts_of).setdefault(name, []).extend(failed)
+            check.extra.setdefault("history_sub_obligations", {})[f"{name} {inst} ({mode})"] = {"checked": len(sub.obs), "failed": failed[:6]}
         # both exits are explored (vacuity guard)
         check.ob(f"{name}#explores-normal-and-exceptional-exit", inst, [], outcomes == {"return", "raise"},
                  detail=f"outcomes {outcomes}")
+        return
+        yield
 
     rpc = ("c14.compile_c_stmt", lambda mdl: {}) if replay_on else None
     for nparts in (1, 2):
@@ -388,6 +441,17 @@ def gen_entry_points(loader, check, replay_on=True):
     for p, pi in run_ep("compile_c_stmt", "any statement", lambda it, st: it.call(it.getattr_(st["c"], "compile_c_stmt"), ["{ x; }"], {}),
                         False, rpc):
         pass
+
+    all_exit_clean = not any(exit_facts.values())
+    for name in sorted(exit_facts):
+        ok = all_exit_clean or not entry_facts_of.get(name)
+        detail = ""
+        if not ok:
+            dirty_exits = {k: v[:2] for k, v in exit_facts.items() if v}
+            detail = (f"{name} starts a translation on a transformer that is not in the reset state: {entry_facts_of[name][:2]}; "
+                      f"and not every entry point leaves it reset: {dirty_exits}")
+        check.ob(f"{name}#history-independent: translation starts from the reset state (own reset, or every entry point leaves it reset on every exit)",
+                 "any history", [], ok, detail=detail, replay=("c14.history_pair", lambda mdl: {}) if replay_on else None)
 
     # compile_sub_routine / add_sub_routine work on a fresh transformer: frame over the shared one
     for name in ("compile_sub_routine", "add_sub_routine"):
@@ -688,6 +752,73 @@ def replay_compile_c_stmt(a):
     return again != ref or bool(left), f"after a statement that raised {exc}: holder keeps {left}; recompiling '{{ RdV = 1; }}' gives identical text: {again == ref}"
 
 
+@replay.register("c14.history_pair")
+def replay_history_pair(a):
+    """real Compiler objects: every ordered pair (first entry point, succeeding or raising; second entry point) - the second result must
+    equal what a fresh Compiler produces (numbering of generated names aside, which legitimately continues)"""
+    import re as _re
+    from rzilcompiler.Compiler import Compiler
+    from rzilcompiler.ArchEnum import ArchEnum
+    from rzilcompiler.Parser import Parser
+    parsed = Parser().parse({"X_hist_ok": ["{ RdV = RtV; }"], "X_hist_fail": ["{ RdV = siV + RsV++; PdV = unknown_fn(RtV); }"], "X_hist_second": ["{ RdV = RsV; }"]})
+
+    def norm(x):
+        return _re.sub(r"_\d+", "_N", str(x))
+    firsts = {
+        "statement that succeeds": lambda c: c.compile_c_stmt("{ RdV = mem_load_s16(EA) + siV; }"),
+        "statement that raises": lambda c: c.compile_c_stmt("{ RdV = siV + RsV++; PdV = clz32(RsV) + unknown_fn(RtV); }"),
+        "instruction that succeeds": lambda c: c.transform_insn("X_hist_ok", parsed["X_hist_ok"]),
+        "instruction that raises": lambda c: c.transform_insn("X_hist_fail", parsed["X_hist_fail"]),
+    }
+    seconds = {
+        "statement": lambda c: norm(c.compile_c_stmt("{ RdV = RsV; }")),
+        "instruction": lambda c: (lambda r: norm((r.rzil, r.meta)))(c.transform_insn("X_hist_second", parsed["X_hist_second"])),
+    }
+    ref = {k: f(Compiler(ArchEnum.HEXAGON)) for k, f in seconds.items()}
+    bad = []
+    for fk, ff in firsts.items():
+        for sk, sf in seconds.items():
+            c = Compiler(ArchEnum.HEXAGON)
+            try:
+                ff(c)
+            except Exception:           # noqa: BLE001 - the raising histories are the point
+                pass
+            try:
+                got = sf(c)
+            except Exception as e:      # noqa: BLE001
+                got = f"raises {type(e).__name__}"
+            if got != ref[sk]:
+                bad.append(f"after a {fk}, the {sk} '{{ RdV = RsV; }}' differs from a fresh compiler's: {got[:160]} vs {ref[sk][:160]}")
+    return bool(bad), "; ".join(bad[:2]) if bad else "all 8 histories give the fresh compiler's result"
+
+
+@replay.register("c14.stale_holder")
+def replay_stale_holder(a):
+    """real transformer: register an operand, reset, then look for an operand holder other than the current one that is still reachable
+    from the transformer and still holds operands"""
+    from rzilcompiler.Transformer.RZILTransformer import RZILTransformer
+    from rzilcompiler.Transformer.ILOpsHolder import ILOpsHolder
+    from rzilcompiler.Transformer.Pures.Variable import Variable
+    from rzilcompiler.Transformer.ValueType import ValueType
+    from rzilcompiler.ArchEnum import ArchEnum
+    t = RZILTransformer(ArchEnum.HEXAGON)
+    t.add_op(Variable("stale_x", ValueType(True, 32)))
+    t.reset()
+    found, seen, todo = [], set(), [(t, "transformer", 0)]
+    while todo:
+        o, path, d = todo.pop()
+        if id(o) in seen or d > 3 or not hasattr(o, "__dict__"):
+            continue
+        seen.add(id(o))
+        if isinstance(o, ILOpsHolder) and o is not t.il_ops_holder and (o.read_ops or o.exec_ops or o.write_ops or o.let_ops):
+            found.append(path)
+            continue
+        for f, v in vars(o).items():
+            if hasattr(v, "__dict__") and not isinstance(v, type):
+                todo.append((v, f"{path}.{f}", d + 1))
+    return bool(found), f"after reset() a holder that still lists the operands of the previous behaviour is reachable through {found}"
+
+
 @replay.register("c14.reset")
 def replay_reset(a):
     from rzilcompiler.Transformer.RZILTransformer import RZILTransformer
@@ -710,6 +841,7 @@ def replay_reset(a):
     if "preds" in parts:
         t.ext.preds_written.append(2)
     t.reset()
+    h = t.il_ops_holder          # the holder in use after the reset (reset may clear the old one or install a new one)
     left = {n: len(getattr(h, n)) for n in ("hybrid_effect_dict", "read_ops", "exec_ops", "write_ops", "let_ops")}
     left.update(op_count=h.op_count, imm=len(t.imm_set_effect_list), preds=list(t.ext.preds_written),
                 flags=[f for f in FLAGS if getattr(t.ext, f)])
